@@ -128,6 +128,12 @@ fn main() {
     if prop == "C11" {
         script::c11_large(&mut g, &mut out, thorough);
     }
+    if prop == "C12" {
+        script::c12_large(&mut g, &mut out, thorough);
+    }
+    if prop == "C04" || prop == "C05" {
+        ops::lax_collections(&mut g, thorough, &mut out);
+    }
     if prop == "C02" {
         ops::c02_too_long(&mut out);
         ops::c02_refcell_borrowed(&mut out);
